@@ -335,14 +335,24 @@ for _fam, _OT, _L, _valid, _tv in (("v4", O4, 32, "ValidV4Text", "TextVal4"), ("
                    "implies((%s) and not undo_ip_anon, B(%s(match), %d) in anonymizer.cache)" % (_should, _tv, _L),
                ])
 
-for _fam, _OT, _L in (("v4", O4, 32), ("v6", ObjT("Ip6"), 128)):
+for _fam, _OT, _L, _valid, _tv in (("v4", O4, 32, "ValidV4Text", "TextVal4"), ("v6", ObjT("Ip6"), 128, "ValidV6Text", "TextVal6")):
+    _m = "anonymizer.length - anonymizer.preserve_suffix"
+    _should = "%s(MATCH) and anonymizer.should_anonymize(%s(MATCH))" % (_valid, _tv) if _fam == "v4" \
+        else "%s(MATCH)" % _valid
+    # C06/C02/C03: every matched address token is replaced, as a whole, by the canonical text of ITS OWN image (or
+    # pre-image when undoing) - or left exactly as written when it is a mask, preserved or not an address
+    _STEP = ["implies(not (%s), REPL == MATCH)" % _should,
+             "implies((%s) and not undo_ip_anon, REPL == addr_str(addr_of_int(%d, "
+             "V(G(anonymizer, %s, B(%s(MATCH), %d))))))" % (_should, _L, _m, _tv, _L),
+             "implies((%s) and undo_ip_anon, REPL == addr_str(addr_of_int(%d, "
+             "V(Ginv(anonymizer, %s, B(%s(MATCH), %d))))))" % (_should, _L, _m, _tv, _L)]
     R.contract(M + "anonymize_ip_addr@" + _fam,
                types={"anonymizer": _OT, "line": STR, "undo_ip_anon": BOOL}, returns=STR,
                requires=["WF(anonymizer)", "anonymizer.length == %d" % _L],
                modifies=["anonymizer.cache", "log"],
                ensures=["WF(anonymizer)", "Extends(old(anonymizer.cache), anonymizer.cache)"],
                loops={"sub0": LoopContract([], heap_modifies=["anonymizer.cache"], invariant=[
-                   "WF(anonymizer)", "Extends(old(anonymizer.cache), anonymizer.cache)"])})
+                   "WF(anonymizer)", "Extends(old(anonymizer.cache), anonymizer.cache)"], step_ensures=_STEP)})
 
 
 # ---------------------------------------------------------------- dump_to_file (C17)
